@@ -330,6 +330,7 @@ type reply struct {
 	Err   string     `json:"err,omitempty"`
 	Cert  string     `json:"cert,omitempty"`
 	IAT   string     `json:"iat,omitempty"`
+	InUse string     `json:"iat_in_use,omitempty"`
 	Keys  []string   `json:"keys,omitempty"`
 	Addrs [][]string `json:"addrs,omitempty"`
 }
